@@ -148,6 +148,11 @@ func runC03AfterAborts(e *Env) {
 			e.R.Inconcl("after-aborted-sessions: transfers hung but the control process did not complete its transfers either (machine stalled)")
 			return
 		}
+		if subject.r.Hung < 2 {
+			// one stall can be datagram loss and retransmission back-off on the loaded machine
+			e.R.Inconcl("after-aborted-sessions: one transfer stalled and the next ones completed")
+			return
+		}
 		e.R.Violate("healthy-transfer-failed:hang:history=after-aborted-sessions", fmt.Sprintf("after %d aborted sessions in the same process %d of %d transfers between healthy peers hung (a fresh process completed all %d at the same time)", subject.r.Aborted, subject.r.Hung, subject.r.Healthy, control.Completed),
 			map[string]any{"history": "after-aborted-sessions", "aborted": subject.r.Aborted}, map[string]any{"goroutines": subject.r.Dump, "subject": subject.r, "control": control})
 		return
